@@ -323,6 +323,18 @@ def _rename_map(base_lines, cur_lines):
         if x.kind != 'ident': return None
         if m.setdefault(x.text, y.text) != y.text: return None
     if not m or len(set(m.values())) != len(m): return None
+    # only LOCAL BINDERS may be followed: a name that is ever used as a field, method, path segment, callee, macro or struct name is
+    # not a local, and its first occurrence must be a binding position (let / for / closure or fn parameter / pattern).  Without this
+    # a swap of two field names (`children` -> `parents`) was taken for a renaming and carried into the contract (found by a mutant).
+    for name in m:
+        occ = [i for i, t in enumerate(a) if t.kind == 'ident' and t.text == name]
+        for i in occ:
+            prev = a[i - 1].text if i > 0 else ''; nxt = a[i + 1].text if i + 1 < len(a) else ''
+            if prev in ('.', '::') or nxt in ('(', '!', '::', '{', '<'): return None
+        if name[:1].isupper() or m[name][:1].isupper(): return None
+        i = occ[0]; prev = a[i - 1].text if i > 0 else ''; nxt = a[i + 1].text if i + 1 < len(a) else ''
+        binder = prev in ('let', 'mut', 'for', 'ref') or (prev in ('|', '(', ',', '&') and nxt in (':', ',', ')', '|'))
+        if not binder: return None
     # a renamed identifier must be renamed everywhere, and its new name must not already be in use in the template
     used = {t.text for t in a if t.kind == 'ident'}
     if any(x.text in m and y.text != m[x.text] for x, y in zip(a, b)) or any(v in used for v in m.values()): return None
